@@ -495,26 +495,39 @@ func (w *worker) readonly(entries []*catalog.Entry) {
 // store stays as it is.
 var decorations = []string{"select=", "select=&select-type=2", "list-type=2", "versions=", "x-id=GetObject", "location=", "attributes="}
 
+// ... and request headers that change what a handler asks for (another permission, another owner check, another
+// method), written as "Name: value"
+var headerDecorations = []string{"X-Amz-Bypass-Governance-Retention: true", "X-Amz-Expected-Bucket-Owner: " + gw.RootAK, "X-Amz-Acl: public-read-write",
+	"X-Amz-Grant-Full-Control: " + gw.RootAK, "X-Http-Method-Override: GET", "X-Amz-Request-Payer: requester", "X-Amz-Mfa: 123456 654321", "X-Amz-Object-Ownership: BucketOwnerEnforced"}
+
 // decorated sends every live mutating S3 request once more per decoration and judges the store only.
 func (w *worker) decorated(entries []*catalog.Entry) {
 	for _, e := range entries {
 		if e.Kind != catalog.W || e.Level == catalog.LvlAdmin || !w.live[e.Name] {
 			continue
 		}
-		for _, deco := range decorations {
+		all := append(append([]string{}, decorations...), headerDecorations...)
+		for _, deco := range all {
 			id := w.lane + "/" + e.Name + "/+" + deco
 			if !w.c.Want(id) {
 				continue
 			}
 			rq := e.Request(w.args(e), catalog.BodyValid).Req()
 			rq.Watchdog = 60 * time.Second
-			if strings.Contains("&"+rq.Query+"&", "&"+strings.SplitN(deco, "=", 2)[0]+"=") {
-				continue // the request already carries that parameter
-			}
-			if rq.Query == "" {
-				rq.Query = deco
+			if hn, hv, isHdr := strings.Cut(deco, ": "); isHdr {
+				if rq.Header.Get(hn) != "" {
+					continue
+				}
+				rq.Header = append(rq.Header, [2]string{hn, hv})
 			} else {
-				rq.Query += "&" + deco
+				if strings.Contains("&"+rq.Query+"&", "&"+strings.SplitN(deco, "=", 2)[0]+"=") {
+					continue // the request already carries that parameter
+				}
+				if rq.Query == "" {
+					rq.Query = deco
+				} else {
+					rq.Query += "&" + deco
+				}
 			}
 			b := w.cl.Build(rq)
 			resp := w.cl.Send(b, rq)
@@ -529,15 +542,19 @@ func (w *worker) decorated(entries []*catalog.Entry) {
 			d := w.diff(false)
 			if len(d) > 0 {
 				m := describe(b, resp)
-				m["endpoint"], m["caller"], m["config"], m["extra_query"], m["tree_diff"] = e.Name, w.caller, w.cfg.name, deco, short(d)
-				w.c.Violation(e.Name+":"+w.caller+":tree-changed:with-extra-query-"+strings.SplitN(deco, "=", 2)[0], id, m)
+				m["endpoint"], m["caller"], m["config"], m["extra_query_or_header"], m["tree_diff"] = e.Name, w.caller, w.cfg.name, deco, short(d)
+				kind := "with-extra-query-" + strings.SplitN(deco, "=", 2)[0]
+				if hn, _, isHdr := strings.Cut(deco, ": "); isHdr {
+					kind = "with-extra-header-" + strings.ToLower(hn)
+				}
+				w.c.Violation(e.Name+":"+w.caller+":tree-changed:"+kind, id, m)
 				if err := w.restore(); err != nil {
 					w.c.Inconclusive("store restore failed: " + err.Error())
 					return
 				}
 				continue
 			}
-			w.c.Distinct(w.cfg.name + "|" + e.Name + "|" + w.caller + "|+" + strings.SplitN(deco, "=", 2)[0])
+			w.c.Distinct(w.cfg.name + "|" + e.Name + "|" + w.caller + "|+" + strings.SplitN(strings.SplitN(deco, "=", 2)[0], ": ", 2)[0])
 		}
 	}
 }
